@@ -331,6 +331,9 @@ def explore(modname, tier, seed, jobs=None, limit=None, options=None, list_sigs=
             m = matched.setdefault(f["id"], dict(finding=f, cases=0, sigs=0))
             m["cases"] += ent["count"]
             m["sigs"] += 1
+    if os.environ.get("VERIF_DUMP_SIGS"):
+        with open(os.environ["VERIF_DUMP_SIGS"], "w") as f:
+            json.dump([dict(sig=e["sig"], count=e["count"], example=e["example"], known=(match_finding(findings, e["sig"]) or {}).get("id")) for e in tot["viol"].values()], f, default=repr)
     if list_sigs:
         for ent in sorted(tot["viol"].values(), key=lambda e: -e["count"]):
             f = match_finding(findings, ent["sig"])
